@@ -14,6 +14,7 @@ def normalizeAll (sig : Sig) (args : List Arg) : Except Err (List Val) :=
   if sig.variadic then
     args.foldlM (fun acc a => match a with
       | .pack vs => pure (acc ++ vs)
+      | .nilPack => pure acc
       | .one _ => throw Err.reflect) []
   else ones args
 
@@ -26,7 +27,7 @@ theorem f6_unrepaired_panics :
 theorem f6_unrepaired_panics_all (sig : Sig) (hv : sig.variadic = true) (hm : sig.isMethod = false) (x : Val) (xs : List Val)
     (hk : 2 ≤ sig.nIn) : normalizeAll sig (encodeCall sig 0 (x :: xs)) = .error .reflect := by
   obtain ⟨n, hn⟩ : ∃ n, sig.nIn - 1 = n + 1 := ⟨sig.nIn - 2, by omega⟩
-  simp [normalizeAll, encodeCall, hv, hm, hn, bind, Except.bind, throw, throwThe, MonadExceptOf.throw]
+  simp [normalizeAll, encodeCall, encodeCallG, hv, hm, hn, bind, Except.bind, throw, throwThe, MonadExceptOf.throw]
 
 /-- the unrepaired outer loop of `InExpr.Eval`: `if len(input) != len(one) { return false, nil }` -/
 def evalAltsOld (eqv : Val → Val → Bool) : List (List Spec) → List Val → Bool
